@@ -20,12 +20,8 @@ use crate::vfs::{UrlExt, Vfs};
 
 pub fn position(line_index: &LineIndex, position: TextSize) -> lsp_types::Position {
     let line = line_index.pos_to_line(position);
-    let line_first = line_index.line_to_pos(line);
-    let character = position - line_first;
-    lsp_types::Position::new(
-        line.try_into().expect("line out of range"),
-        character.into(),
-    )
+    let character = line_index.pos_to_col(position);
+    lsp_types::Position::new(line.try_into().expect("line out of range"), character)
 }
 
 pub fn range(line_index: &LineIndex, range: TextRange) -> lsp_types::Range {
